@@ -280,9 +280,21 @@ func (u *Unit) execInstr(fr *Frame, st *State, in ssa.Instruction) {
 		u.event(fr, st, "makechan", map[string]Val{"ch": fr.vals[x]}, where)
 
 	case *ssa.MakeMap:
-		fr.vals[x] = &Scalar{T: u.fresh(SInt, "map"), Typ: x.Type(), Origin: "map"}
+		fr.vals[x] = &Scalar{T: u.fresh(SInt, "map"), Typ: x.Type(), Origin: "map", Keys: &keySet{known: true, ks: map[string]bool{}}}
 
 	case *ssa.MapUpdate:
+		// a local map keeps the set of constant keys it may hold (label sets of metrics)
+		if ms, ok := u.get(fr, x.Map).(*Scalar); ok && ms.Keys != nil {
+			if ks, ok := u.get(fr, x.Key).(*Scalar); ok {
+				if lit, ok := u.eng.strOf(ks.T); ok && isStringType(x.Key.Type()) {
+					ms.Keys.ks[lit] = true
+				} else {
+					ms.Keys.known = false
+				}
+			} else {
+				ms.Keys.known = false
+			}
+		}
 		// maps held in fields are modelled; local label maps are not
 		if mv, ok := u.get(fr, x.Map).(*MapV); ok {
 			u.oblige("nopanic.nil_map_write", u.panicProps(), "", st.pc, Not(u.mapNil(st, mv)), where, "assignment to entry in nil map")
